@@ -4,6 +4,7 @@ import (
 	"encoding/base64"
 	"encoding/json"
 	"fmt"
+	"github.com/cosmos/cosmos-sdk/types/bech32"
 	"math/big"
 	"strings"
 	"testing"
@@ -52,9 +53,20 @@ func (g *c20g) disturb() string {
 	return fmt.Sprintf("earlier bank MsgSend to %s ok=%v", target, res.OK())
 }
 
+// emptyPayloadAddr is the well-formed bech32 string of this chain's prefix whose payload is empty.
+var emptyPayloadAddr = func() string {
+	s, err := bech32.ConvertAndEncode("c4e", []byte{})
+	if err != nil {
+		panic(err)
+	}
+	return s
+}()
+
 func (g *c20g) addr(l string) string {
 	t := g.t
-	switch rapid.IntRange(0, 11).Draw(t, l+"_addr") {
+	switch rapid.IntRange(0, 12).Draw(t, l+"_addr") {
+	case 12:
+		return emptyPayloadAddr // right prefix, right checksum, zero bytes of payload
 	case 0:
 		return ""
 	case 1:
